@@ -261,20 +261,22 @@ class Exporter:
                 rows.append(row)
 
         # now, add the spine terminate row
-        if options.to_measure is not None and len(rows) > 0 and rows[len(rows) - 1][
-            0] != '*-':  # if the terminate is not added yet
+        if options.to_measure is not None and len(rows) > 0:
             last_row = rows[len(rows) - 1]
             spine_count = len(last_row)
             merge_tokens_count = sum(1 for column in last_row if column == '*^')
             # a group of k adjacent '*v' joins k spines into one: it removes k - 1 of them
             join_tokens_count = sum(1 for i, column in enumerate(last_row)
                                     if column == '*v' and i > 0 and last_row[i - 1] == '*v')
-            next_row_spine_count = spine_count + merge_tokens_count - join_tokens_count
+            # the spines that the last row itself terminates are not terminated again
+            terminated_count = sum(1 for column in last_row if column == '*-')
+            next_row_spine_count = spine_count + merge_tokens_count - join_tokens_count - terminated_count
 
-            row = []
-            for i in range(next_row_spine_count):
-                row.append('*-')
-            rows.append(row)
+            if next_row_spine_count > 0:  # if the terminate is not added yet
+                row = []
+                for i in range(next_row_spine_count):
+                    row.append('*-')
+                rows.append(row)
 
         result = ""
         for row in rows:
